@@ -219,10 +219,59 @@ func checkTraversal(root *newick.Node, nodes []*newick.Node, what string) core.O
 			}
 		}
 	}
+	// A walk that the consumer abandons yields a prefix of the full walk and nothing after the stop:
+	// "every node exactly once" must not turn into "some node once more" when part of the tree is handed
+	// to a helper that cannot report the stop back (a deep subtree, a wide node, a fast path for leaves).
+	// Small trees: every stop position; large ones: positions around every power of two up to 2^17, around
+	// 1000 and 10 000, the middle and the end.
+	var stops []int
+	if len(nodes) <= 24 {
+		for t := 1; t <= len(nodes); t++ {
+			stops = append(stops, t)
+		}
+	} else {
+		for _, c := range []int{1, 2, 4, 8, 16, 32, 64, 128, 256, 512, 1000, 1024, 2048, 4096, 8192, 10000, 16384, 32768, 65536, 131072, len(nodes) / 2, len(nodes)} {
+			for d := -2; d <= 2; d++ {
+				if t := c + d; t >= 1 && t <= len(nodes) && t <= 140000 {
+					stops = append(stops, t)
+				}
+			}
+		}
+	}
+	evals := 2
+	for pass, want := range [][]*newick.Node{wantPre, wantPost} {
+		name := []string{"PreOrder", "PostOrder"}[pass]
+		for _, t := range stops {
+			calls, wrongAt := 0, -1
+			p := catch(func() {
+				it := root.PreOrder()
+				if pass == 1 {
+					it = root.PostOrder()
+				}
+				it(func(n *newick.Node) bool {
+					if calls < len(want) && n != want[calls] && wrongAt < 0 {
+						wrongAt = calls
+					}
+					calls++
+					return calls < t && calls < 2*len(nodes)+2
+				})
+			})
+			evals++
+			if p != "" {
+				return core.Failf("%s on %s abandoned after %d nodes panicked: %s", name, what, t, p)
+			}
+			if calls != t {
+				return core.Failf("%s on %s abandoned after %d nodes: %d nodes were yielded (nodes after the stop)", name, what, t, calls)
+			}
+			if wrongAt >= 0 {
+				return core.Failf("%s on %s abandoned after %d nodes: node %d differs from the recursive order", name, what, t, wrongAt)
+			}
+		}
+	}
 	if !sameSnap(before, snapTree(nodes)) {
 		return core.Failf("traversal modified the tree %s", what)
 	}
-	return core.Outcome{Class: fmt.Sprint("nodes", min(len(nodes), 12)), Nontrivial: len(nodes) >= 3, Evals: 2}
+	return core.Outcome{Class: fmt.Sprint("nodes", min(len(nodes), 12)), Nontrivial: len(nodes) >= 3, Evals: evals}
 }
 
 func runC19(r *core.Run) {
@@ -520,6 +569,11 @@ func runC19(r *core.Run) {
 
 	core.Clause(r, "degenerate", core.Opts{Serial: true, Rule: "chain of depth n, star with n children, comb (chain with a leaf at every level), combs whose side children are inner nodes (met before / after the deep descent, at every level on the way back up), and roots whose children are every sequence of up to 3 of {chain of n nodes, inner node, leaf} with at least one chain (deep dip, back to the root, further subtrees), for the listed n; non-trivial = all"},
 		func(emit func(c19Big) bool) {
+			for _, n := range []int{5000, 9000} { // combs deeper than any threshold of a few thousand levels, stopped around the powers of two
+				emit(c19Big{"comb", n})
+				emit(c19Big{"comb-inner-after", n})
+				emit(c19Big{"comb-inner-before", n})
+			}
 			for n := 1; n <= 300; n++ { // every depth / width: a stack or queue preallocated for some size is met at its edge
 				emit(c19Big{"chain", n})
 				emit(c19Big{"star", n})
